@@ -12,6 +12,8 @@ package main
 //   tp-wire          extension 57 carries exactly the spec's parameters after suppression:
 //                    same ids (GREASE included), same values, in spec order -- or, with
 //                    RandomizeTransportParameters, a permutation of them
+//   tp-raw-verbatim  every raw/fake parameter of the spec (also one whose id collides with a typed
+//                    parameter, 0x0f in particular) is on the wire with exactly the spec's bytes
 //   tp-suppressed    no suppressed id (no GREASE id when 27 is listed) is on the wire
 //   ids-canonical    QUICSpec.TransportParameterIDs() == sort(canon(wire ids)), both when
 //                    called before the dial and after it
@@ -51,6 +53,61 @@ func init() { units["simfingerprint"] = runSimFingerprint }
 type fpParam struct {
 	ID  uint64
 	Val []byte
+	// Placeholder: (spec side only) the Go value is the typed tls.InitialSourceConnectionID --
+	// the only kind of parameter a dial may fill in, and only when its value is empty. A raw /
+	// fake parameter with id 0x0f must reach the wire with the spec's bytes.
+	Placeholder bool
+	Raw         bool // (spec side only) a *tls.FakeQUICTransportParameter: literal id and bytes
+}
+
+// fpRawVerbatim: every raw/fake parameter of the (suppressed) spec list reaches the wire with
+// exactly the spec's id and bytes (as a multiset: the order is another monitor's subject).
+// Returns the first one that does not.
+func fpRawVerbatim(exp, wire []fpParam) *fpParam {
+	used := make([]bool, len(wire))
+outer:
+	for i := range exp {
+		if !exp[i].Raw {
+			continue
+		}
+		for j := range wire {
+			if !used[j] && wire[j].ID == exp[i].ID && bytes.Equal(wire[j].Val, exp[i].Val) {
+				used[j] = true
+				continue outer
+			}
+		}
+		return &exp[i]
+	}
+	return nil
+}
+
+// fpAddRawFamily inserts raw/fake parameters whose ids collide with typed ones into the list:
+// a raw initial_source_connection_id (0, 8 or 24 bytes; beside or instead of the typed
+// placeholder) and raw copies of ids PopulateFromUQUIC does not type-assert (a raw parameter
+// with an asserted id makes the dial panic, which is not this property's subject).
+func fpAddRawFamily(r *u.Rng, ext *tls.QUICTransportParametersExtension) {
+	ins := func(tp tls.TransportParameter) {
+		at := r.Intn(len(ext.TransportParameters) + 1)
+		ext.TransportParameters = append(ext.TransportParameters[:at:at], append(tls.TransportParameters{tp}, ext.TransportParameters[at:]...)...)
+	}
+	raw0f := &tls.FakeQUICTransportParameter{Id: 0xf, Val: r.Bytes([]int{0, 8, 24}[r.Intn(3)])}
+	if r.Bool() { // instead of the typed placeholder
+		for i, tp := range ext.TransportParameters {
+			if _, ok := tp.(tls.InitialSourceConnectionID); ok {
+				ext.TransportParameters[i] = raw0f
+				raw0f = nil
+				break
+			}
+		}
+	}
+	if raw0f != nil {
+		ins(raw0f)
+	}
+	for _, id := range []uint64{0x2, 0x3, 0xa, 0xc, 0xd, 0x10, 0x11, 0x15} {
+		if r.Chance(1, 4) {
+			ins(&tls.FakeQUICTransportParameter{Id: id, Val: r.Bytes(r.Intn(9))})
+		}
+	}
 }
 
 func (p fpParam) String() string { return fmt.Sprintf("%x=%x", p.ID, p.Val) }
@@ -95,7 +152,7 @@ func fpReadParams(ext []byte) ([]fpParam, error) {
 		if uint64(len(ext)) < l {
 			return out, fmt.Errorf("parameter %x claims %d bytes, %d left", id, l, len(ext))
 		}
-		out = append(out, fpParam{id, append([]byte{}, ext[:l]...)})
+		out = append(out, fpParam{ID: id, Val: append([]byte{}, ext[:l]...)})
 		ext = ext[l:]
 	}
 	return out, nil
@@ -247,7 +304,9 @@ func fpSpecExt(sp *quic.QUICSpec) *tls.QUICTransportParametersExtension {
 func fpSnapshot(ext *tls.QUICTransportParametersExtension) []fpParam {
 	out := make([]fpParam, 0, len(ext.TransportParameters))
 	for _, tp := range ext.TransportParameters {
-		out = append(out, fpParam{tp.ID(), append([]byte{}, tp.Value()...)})
+		_, ph := tp.(tls.InitialSourceConnectionID)
+		_, raw := tp.(*tls.FakeQUICTransportParameter)
+		out = append(out, fpParam{ID: tp.ID(), Val: append([]byte{}, tp.Value()...), Placeholder: ph, Raw: raw})
 	}
 	return out
 }
@@ -298,7 +357,7 @@ func fpExpected(pre []fpParam, suppress []uint64, scid []byte) []fpParam {
 		if drop {
 			continue
 		}
-		if p.ID == 0xf && len(p.Val) == 0 {
+		if p.ID == 0xf && len(p.Val) == 0 && p.Placeholder {
 			p.Val = scid
 		}
 		out = append(out, p)
@@ -716,6 +775,9 @@ func fpDialOnce(rep *fpReporter, sp *quic.QUICSpec, c fpDialCfg, dialNo int) *fp
 	} else if !fpSameOrder(exp, o.Wire) {
 		rep.fail(kw+"tp-wire", "extension 57 differs from the spec's parameters after suppression (ids, values, order)", detail())
 	}
+	if m := fpRawVerbatim(exp, o.Wire); m != nil {
+		rep.fail(kw+"tp-raw-verbatim", fmt.Sprintf("raw parameter %x=%x of the spec is not on the wire with the spec's bytes", m.ID, m.Val), detail())
+	}
 	for _, p := range o.Wire {
 		for _, s := range c.Suppress {
 			if p.ID == s || (s == 27 && fpIsGrease(p.ID)) {
@@ -852,6 +914,9 @@ func runSimFingerprint(w *bufio.Writer, seed uint64, n int, args []string) {
 			ext := fpSpecExt(sp)
 			if i%2 == 0 {
 				fpSortSpec(ext) // a spec written in a fixed order
+			}
+			if i%3 == 1 {
+				fpAddRawFamily(r, ext) // raw parameters with the ids of typed ones
 			}
 			pre := fpSnapshot(ext)
 			c := fpDialCfg{Name: name, Randomize: r.Chance(2, 3), IDsBefore: r.Bool()}
